@@ -147,9 +147,24 @@ def floor_ms(us: int) -> int:
     return us - us % 1000
 
 
+def _canon_default(o):
+    # values that are not JSON (an Event's datetime/timedelta inside `subevents`, …) get a tagged form so that
+    # monitors stay usable on whatever a foreign workload hands to the monitored functions
+    if isinstance(o, datetime):
+        return {"$datetime": dt_us(o) if o.tzinfo else o.isoformat()}
+    if isinstance(o, timedelta):
+        return {"$timedelta": td_us(o)}
+    if isinstance(o, (set, frozenset, tuple)):
+        return {"$seq": [x for x in o]}
+    return {"$py": type(o).__name__, "repr": repr(o)}
+
+
 def canon(x) -> str:
     """Canonical JSON text: the meaning of 'equal JSON data'."""
-    return json.dumps(x, sort_keys=True, ensure_ascii=False, allow_nan=False)
+    try:
+        return json.dumps(x, sort_keys=True, ensure_ascii=False, allow_nan=False)
+    except (TypeError, ValueError):
+        return json.dumps(x, sort_keys=True, ensure_ascii=False, allow_nan=True, default=_canon_default, skipkeys=False)
 
 
 def ev_obs(e) -> dict:
